@@ -653,10 +653,60 @@ pub fn check_line_edits(c: &LineEdits, probe: &Probe) -> Verdict {
     Verdict::Pass
 }
 
+/// Keys a numeric keep-sorted block may meet that `f64` parsing accepts or rejects in unusual ways.
+const ODD_NUMBERS: &[&str] = &["nan", "NaN", "-nan", "inf", "-inf", "+5", "1e3", ".5", "5.", "-0", "0", "1e400", "-1e-400", "1_0", "0x1", "\u{661}", "9007199254740993", ""];
+
+#[derive(Clone, Debug, Serialize, Deserialize)]
+pub struct OddKeys {
+    pub keys: Vec<u8>,
+    pub desc: bool,
+    pub pattern: bool,
+}
+
+/// Odd-number part: whatever the verdict on such keys is (a violation, an explanatory error, or nothing), the run
+/// must end with a report or a readable error — no panic inside a validator thread.
+pub fn check_odd_keys(c: &OddKeys, probe: &Probe) -> Verdict {
+    let lines: Vec<&str> = c.keys.iter().map(|k| ODD_NUMBERS[*k as usize % ODD_NUMBERS.len()]).collect();
+    let mut tag = format!("<block name=\"n\" keep-sorted=\"{}\" keep-sorted-format=\"numeric\"", if c.desc { "desc" } else { "asc" });
+    if c.pattern {
+        tag.push_str(" keep-sorted-pattern=\"[-+.\\w]+\"");
+    }
+    tag.push('>');
+    let text = format!("# {tag}\n{}# </block>\n", lines.iter().map(|l| format!("{l}\n")).collect::<String>());
+    let sb = Sandbox::with_fake_git();
+    sb.write("n.py", text.as_bytes());
+    let mut r = BwRun::scan(&["n.py"]);
+    r.timeout_s = Some(30);
+    probe.child();
+    let o = sb.bw(&r);
+    if lines.iter().any(|l| l.to_ascii_lowercase().contains("nan")) {
+        probe.nontrivial();
+    }
+    probe.sample(|| json!({"file": text, "exit": o.code, "stderr": crate::cli::trunc(&o.stderr, 200)}));
+    if let Some(why) = bad_exit(&o) {
+        return Verdict::Fail(format!("C04 [odd numeric keys]: {why}\n--- n.py ---\n{text}--- observed ---\n{}", o.brief()));
+    }
+    Verdict::Pass
+}
+
+pub fn odd_key_items() -> Vec<OddKeys> {
+    let n = ODD_NUMBERS.len() as u8;
+    let mut out = vec![];
+    for a in 0..n {
+        for b in 0..n {
+            out.push(OddKeys { keys: vec![a, b], desc: (a + b) % 2 == 1, pattern: (a + 2 * b) % 3 == 0 });
+            for c in [0u8, 1, 3, 9] {
+                out.push(OddKeys { keys: vec![a, b, c], desc: (a + b + c) % 2 == 0, pattern: (a + b) % 3 == 1 });
+            }
+        }
+    }
+    out
+}
+
 pub fn run(run: &mut Run) {
     run.sentinel("K6", "raw", check_raw);
     run.enumerate("raw", Vec::<RawInput>::new(), None, check_raw);
-    run.rule = "two enumerated and four random parts. line-edits: a block of 1..4 short lines over 21 characters (ASCII and multi-byte characters in groups sharing their UTF-8 lead bytes) changed by 1..4 character substitutions / insertions / deletions, real `git diff -U0..3` piped to `blockwatch` and `blockwatch list` (non-trivial = the first differing character of a changed line is multi-byte on both sides). deep: 16 repetitive shapes (nested parentheses / brackets / braces / elements, block-quote prefixes, comment openers, comment lines, nested <block> tags, member and operator chains, quotes, nested lists, backticks, unfinished tags) repeated 300 and 1 000 (thorough 3 000) times under every suffix, and expression nesting 40 000 (thorough 200 000) deep under 18 suffixes, on the CLI in scan and list mode. unicode-sweep: the golden file of every (suffix, comment form) with one unusual character (NBSP, ideographic space, U+2028, NEL, é, emoji, combining mark, BOM, VT, CR, NUL) inserted at every byte position, or substituted for each blank, parsed + validated in-process. soup: 1..40 tokens drawn from 155 fragments (comment delimiters of every language, tag fragments, half-written tags, quotes, brackets, newlines/CR/CRLF, NBSP, zero-width, emoji, combining marks, BOM, here-doc/PHP/Markdown/XML openers, small valid statements), glued or space-separated, run in-process (parse + sync validators) under all 39 suffixes. mutants: delete/duplicate/insert-token/truncate/move-span mutations of valid files (golden file of every suffix x comment form, and the repository's own sources, tests, README, capped at 8 KiB) under their own suffix in-process. cli: a mutant committed and a further mutation in the work tree, real `git diff -U0..3` piped to `blockwatch` and `blockwatch list`, plus scan and list, under the file's suffix and a second random suffix. Every in-process panic is re-run on the CLI before it is reported. Evaluations count (input, suffix, mode) runs. Non-trivial input = unbalanced comment delimiters, a half-written tag, a Markdown definition opener or a degenerate `<!-->`.".into();
+    run.rule = "three enumerated and four random parts. odd-numbers: every pair (and a sample of triples) of 18 unusual numerals (nan, inf, exponents, signs, -0, overflow, underscores, hex, Arabic-Indic digit, 2^53+1, blank) as the keys of a numeric keep-sorted block, with and without a pattern: any verdict, but no panic. line-edits: a block of 1..4 short lines over 21 characters (ASCII and multi-byte characters in groups sharing their UTF-8 lead bytes) changed by 1..4 character substitutions / insertions / deletions, real `git diff -U0..3` piped to `blockwatch` and `blockwatch list` (non-trivial = the first differing character of a changed line is multi-byte on both sides). deep: 16 repetitive shapes (nested parentheses / brackets / braces / elements, block-quote prefixes, comment openers, comment lines, nested <block> tags, member and operator chains, quotes, nested lists, backticks, unfinished tags) repeated 300 and 1 000 (thorough 3 000) times under every suffix, and expression nesting 40 000 (thorough 200 000) deep under 18 suffixes, on the CLI in scan and list mode. unicode-sweep: the golden file of every (suffix, comment form) with one unusual character (NBSP, ideographic space, U+2028, NEL, é, emoji, combining mark, BOM, VT, CR, NUL) inserted at every byte position, or substituted for each blank, parsed + validated in-process. soup: 1..40 tokens drawn from 155 fragments (comment delimiters of every language, tag fragments, half-written tags, quotes, brackets, newlines/CR/CRLF, NBSP, zero-width, emoji, combining marks, BOM, here-doc/PHP/Markdown/XML openers, small valid statements), glued or space-separated, run in-process (parse + sync validators) under all 39 suffixes. mutants: delete/duplicate/insert-token/truncate/move-span mutations of valid files (golden file of every suffix x comment form, and the repository's own sources, tests, README, capped at 8 KiB) under their own suffix in-process. cli: a mutant committed and a further mutation in the work tree, real `git diff -U0..3` piped to `blockwatch` and `blockwatch list`, plus scan and list, under the file's suffix and a second random suffix. Every in-process panic is re-run on the CLI before it is reported. Evaluations count (input, suffix, mode) runs. Non-trivial input = unbalanced comment delimiters, a half-written tag, a Markdown definition opener or a degenerate `<!-->`.".into();
     run.assumptions = vec![
         "inputs are at most 16 KiB (edited lines are short: the character diff of one replaced line is quadratic, slowness on very long lines is not flagged)".into(),
         "only git-made diffs are piped in".into(),
@@ -670,6 +720,7 @@ pub fn run(run: &mut Run) {
     run.random("soup", run.tier.pick(2500, 40000), soup, check_soup);
     run.random("mutants", run.tier.pick(20000, 600000), mutant, check_mutant);
     run.shrink_iters = 100;
+    run.enumerate("odd-numbers", odd_key_items(), Some("every pair (and a sample of triples) of 18 unusual numerals as the keys of a numeric keep-sorted block"), check_odd_keys);
     run.random("cli", run.tier.pick(400, 10000), cli, check_cli);
     let edits = || {
         (proptest::collection::vec(proptest::collection::vec(any::<u8>(), 0..12), 1..5), proptest::collection::vec((any::<u8>(), any::<u8>(), 0u8..3, any::<u8>()), 1..5), 0u8..4)
